@@ -84,7 +84,7 @@ def check(tree, rep, tier='quick', seed=0):
             if p.outcome.kind == 'ret':
                 walk(p.outcome.value, visit)
             for (kind, data, node, rel_) in p.events:
-                if kind == 'collapse':
+                if kind in ('collapse', 'firstonly'):
                     bad.append(data)
         # names with a computed part over a fixed block (dependent_{n}_ctc) are indices into the 1040's own rows, not copies of a form
         bad = [b for b in bad if 'dependent_{' not in b]
